@@ -2,12 +2,15 @@
     Proved here: an input derivable without `!` is parsed without any recovery -- the run returns
     exactly its derivation tree, which contains no error node -- for every validated table, with or
     without recovery enabled.
-    Not proved yet (partial): well-formedness of recovered trees and the token accounting (subsequence,
-    coverage by exactly one error span, ordered disjoint spans, dropped lists in order).  The check
+    Also proved: whatever is popped or dropped during recovery, a tree the parser returns is a derivation
+    tree of the start symbol whose error nodes stand exactly where the grammar has `!` (for every
+    validated table, every input, every oracle of failing actions).
+    Not proved yet (partial): the token accounting (leaves a subsequence of the input, every other token
+    covered by exactly one error span, ordered disjoint spans, dropped lists in order).  The check
     decides those clauses on every explored input directly on the implementation's output, and ties
     the recovery model (LR/Driver.v error_recovery) to Parser::error_recovery by in-Coq evaluation. *)
 From Coq Require Import List ZArith.
-From LV Require Import LR.Driver LR.Validator LR.Soundness LR.Completeness LR.Main.
+From LV Require Import LR.Driver LR.Validator LR.Safety LR.ValidatorSpec LR.Soundness LR.Completeness LR.RecoverySound LR.Main.
 Import ListNotations.
 
 Theorem C16_sentences_need_no_recovery : forall A C, valid A C = true ->
@@ -27,3 +30,17 @@ Proof.
     + inversion IH; subst; eauto.
 Qed.
 Print Assumptions C16_derivation_has_no_error_node.
+
+(* a recovered result is still a derivation tree: error nodes only where the grammar has `!` *)
+Theorem C16_recovered_tree_is_a_derivation : forall A C, valid A C = true ->
+  forall orc fuel w v s,
+  Forall (fun k => match tk_idx k with Some t => t < tn_term A | None => True end) w ->
+  drive A orc fuel (map IOk w) = (ROk v, s) -> wf A v (Nt (start_nt A)).
+Proof.
+  intros A C Hv orc fuel w v s Hw H.
+  destruct (valid_proj A C Hv) as (Hs & _ & He & _).
+  apply (recovered_tree_is_a_derivation A C Hs He) with (orc := orc) (fuel := fuel) (w := w) (s := s); [|exact Hw|exact H].
+  intros Hu. destruct (shape_proj A C Hs) as (_ & _ & _ & H4 & _). rewrite Hu in H4.
+  apply PeanoNat.Nat.ltb_lt in H4. unfold err_col. apply PeanoNat.Nat.sub_lt; [exact H4|constructor].
+Qed.
+Print Assumptions C16_recovered_tree_is_a_derivation.
